@@ -90,7 +90,7 @@ class C20(Check):
                         "ref/refext4.py tree_digest()"]
 
     def budget(self, tier):
-        return {"runs": 220, "wall_s": 100} if tier == "quick" else {"runs": 20000, "wall_s": 1500}
+        return {"runs": 220, "wall_s": 100} if tier == "quick" else {"runs": 3000, "wall_s": 1500}
 
     def generate(self, rng, tier):
         cfg = gen_config(rng, avoid=("mmp",))
